@@ -7,6 +7,7 @@
     servers, instances, cycles; any dimension. *)
 From Coq Require Import ZArith QArith List Bool.
 From TM Require Import Sched.Vec Sched.Types Sched.Tree Sched.Cycle Sched.Events Sched.MapsP Sched.Steps Sched.InvAcct.
+From TM Require Import Base.ShapeCanon.
 Import ListNotations.
 Open Scope Z_scope.
 
@@ -70,3 +71,10 @@ Example C01_nonvacuous_run :
   map (fun a => (a_name a, a_server a)) (c_apps (run (init_cell 3 2000 1) ex_ops))
   = [(1, None); (2, None); (3, Some 1001)].
 Proof. vm_compute. reflexivity. Qed.
+
+(** the functions of treadmill/scheduler/__init__.py these theorems were proved about still have the statement
+    skeleton the model was written from (re-extracted from the Python AST on every run, harness/tables_shape.py;
+    kept last so that a difference does not stop the theorems above from being checked) *)
+Theorem C01_source_shape : shapes_ok_C01 = true.
+Proof. vm_compute. reflexivity. Qed.
+Print Assumptions C01_source_shape.
